@@ -3,7 +3,6 @@ package main
 // World: the loaded program, naming, call graph summaries.
 
 import (
-	"sync"
 	"fmt"
 	"go/ast"
 	"go/token"
@@ -11,6 +10,7 @@ import (
 	"os"
 	"sort"
 	"strings"
+	"sync"
 
 	"golang.org/x/tools/go/packages"
 	"golang.org/x/tools/go/ssa"
